@@ -1,5 +1,96 @@
-import Solvor.Sched.Model
-/-! Sched: property theorems only (helper lemmas live in Lemmas.lean). -/
+import Solvor.Sched.Lemmas
+/-!
+Sched: the property theorems of C18 (helper lemmas are in `Lemmas.lean` / `VrpLemmas.lean`).
+
+Part 1 — job shop.  `ValidSchedule jobs S` *is* the property's notion of a valid schedule: every
+operation scheduled exactly once, end − start = duration, operations of a job in order without
+overlap, no two operations overlapping on a machine; `makespan S` is the latest end.
+-/
 namespace Solvor.Sched
+
+/-! ## Part 1: job shop -/
+
+/-- C18 [C] `dispatch_valid`: for **every** complete choice sequence (whatever the dispatching
+rule, the seed or the local search's rebuild priorities picked) the dispatch machine of
+`_dispatch` / `_rebuild_schedule` produces a valid schedule, all times are non-negative, and
+`makespan` is its latest end. -/
+theorem dispatch_valid (jobs : Jobs) (cs : List Nat) (h : Choices jobs cs) :
+    ValidSchedule jobs (dispatch jobs cs) ∧
+    (∀ e ∈ dispatch jobs cs, 0 ≤ e.start) ∧
+    (∀ e ∈ dispatch jobs cs, e.fin ≤ makespan (dispatch jobs cs)) ∧
+    (dispatch jobs cs ≠ [] → ∃ e ∈ dispatch jobs cs, e.fin = makespan (dispatch jobs cs)) := by
+  have hinv := dinv_run jobs cs DState.init (dinv_init jobs)
+  have hnext : ∀ j, (runChoices jobs cs DState.init).next j = (jobs.ops j).length := by
+    intro j; rw [next_run, choices_count h]; simp [DState.init]
+  have hm := makespan_spec (dispatch jobs cs)
+  exact ⟨valid_of_dinv jobs _ hinv hnext, hinv.nonneg, hm.1, hm.2.1⟩
+
+/-- Non-vacuity: the docstring instance of `solvor/job_shop.py`, jobs picked 1,1,0,0,0,1 (SPT). -/
+example : Choices [[(0, 3), (1, 2), (2, 2)], [(0, 2), (2, 1), (1, 4)]] [1, 1, 0, 0, 0, 1] ∧
+    makespan (dispatch [[(0, 3), (1, 2), (2, 2)], [(0, 2), (2, 1), (1, 4)]] [1, 1, 0, 0, 0, 1]) = 11 := by
+  decide
+
+/-- T-spec: the Boolean checker the driver evaluates on every schedule the implementation returns
+decides exactly "valid schedule and reported objective = latest end". -/
+theorem chkSchedule_iff (jobs : Jobs) (S : List Entry) (obj : Int) :
+    chkSchedule jobs S obj = true ↔ ValidSchedule jobs S ∧ obj = makespan S := by
+  unfold chkSchedule chkOnce chkKnown chkPresent chkDur chkOrder chkMach chkObj
+  simp only [Bool.and_eq_true, decide_eq_true_eq, List.all_eq_true, List.any_eq_true, beq_iff_eq,
+    Bool.or_eq_true, Bool.not_eq_eq_eq_not, Bool.not_true, Bool.and_eq_false_imp, List.mem_range,
+    bne_iff_ne, ne_eq, decide_eq_false_iff_not]
+  constructor
+  · rintro ⟨⟨⟨⟨⟨⟨h1, h2⟩, h3⟩, h4⟩, h5⟩, h6⟩, h7⟩
+    refine ⟨⟨h1, ?_, h4, ?_, ?_⟩, h7⟩
+    · intro j k
+      constructor
+      · rintro ⟨e, he, rfl, rfl⟩; exact h2 e he
+      · intro hk
+        obtain ⟨e, he, hj, hk'⟩ := h3 j (ops_length_pos hk) k hk
+        exact ⟨e, he, hj, hk'⟩
+    · intro a ha b hb hjob hop
+      rcases h5 a ha b hb with h | h
+      · exact absurd hop (h hjob)
+      · exact h
+    · intro a ha b hb hkey hmach
+      rcases h6 a ha b hb with (h | h) | h
+      · exact absurd hmach (by simpa using h hkey)
+      · left; exact h
+      · right; exact h
+  · rintro ⟨V, h7⟩
+    refine ⟨⟨⟨⟨⟨⟨V.once, ?_⟩, ?_⟩, V.dur⟩, ?_⟩, ?_⟩, h7⟩
+    · intro e he; exact (V.all e.job e.op).1 ⟨e, he, rfl, rfl⟩
+    · intro j _ k hk
+      obtain ⟨e, he, h1, h2⟩ := (V.all j k).2 hk
+      exact ⟨e, he, h1, h2⟩
+    · intro a ha b hb
+      by_cases h : a.job = b.job ∧ a.op < b.op
+      · right; exact V.order a ha b hb h.1 h.2
+      · left; intro hj; exact fun hop => h ⟨hj, hop⟩
+    · intro a ha b hb
+      by_cases h : ¬ a.key = b.key ∧ jobs.mach a.job a.op = jobs.mach b.job b.op
+      · rcases V.mach a ha b hb h.1 h.2 with h' | h'
+        · left; right; exact h'
+        · right; exact h'
+      · left; left; intro hk; simpa using fun hm => h ⟨hk, hm⟩
+
+/-- Non-vacuity: a valid schedule is accepted, the same schedule with a wrong objective or with
+two operations overlapping on machine 0 is rejected. -/
+example :
+    chkSchedule [[(0, 3), (1, 2)], [(0, 2)]] [⟨1, 0, 0, 2⟩, ⟨0, 0, 2, 5⟩, ⟨0, 1, 5, 7⟩] 7 = true ∧
+    chkSchedule [[(0, 3), (1, 2)], [(0, 2)]] [⟨1, 0, 0, 2⟩, ⟨0, 0, 2, 5⟩, ⟨0, 1, 5, 7⟩] 8 = false ∧
+    chkSchedule [[(0, 3), (1, 2)], [(0, 2)]] [⟨1, 0, 0, 2⟩, ⟨0, 0, 1, 4⟩, ⟨0, 1, 4, 6⟩] 6 = false := by
+  decide
+
+/-- Refinement checker soundness: a schedule accepted by `isDispatchOf` is the dispatch machine's
+schedule for a complete choice sequence – hence (by `dispatch_valid`) valid. -/
+theorem isDispatchOf_sound (jobs : Jobs) (S : List Entry) (h : isDispatchOf jobs S = true) :
+    (∃ cs, Choices jobs cs ∧ dispatch jobs cs = S) ∧ ValidSchedule jobs S := by
+  simp only [isDispatchOf, Bool.and_eq_true, decide_eq_true_eq] at h
+  refine ⟨⟨_, h.1, h.2⟩, ?_⟩
+  have := (dispatch_valid jobs _ h.1).1
+  rwa [h.2] at this
+
+example : isDispatchOf [[(0, 3), (1, 2)], [(0, 2)]] [⟨1, 0, 0, 2⟩, ⟨0, 0, 2, 5⟩, ⟨0, 1, 5, 7⟩] = true := by
+  decide
 
 end Solvor.Sched
